@@ -42,6 +42,7 @@ type Program struct {
 	OutputSize int                    `json:"outputsize"`
 	CacheSize  int                    `json:"cachesize"`
 	Language   string                 `json:"language"`
+	MaxLevel   int                    `json:"maxlevel"`
 	Nodes      map[string][]Instr     `json:"nodes"`
 	Templates  map[string]string      `json:"templates"`
 	Syms       map[string][]SymResult `json:"syms"`
